@@ -35,6 +35,23 @@ StateLine ==
        dead |-> SetToSeq({x \in obs : Eval(x) = <<>>}),
        nodes|-> [i \in 1..Len(prefixes) |-> <<Len(prefixes[i].bits), Val(prefixes[i].bits)>>] ]
 
+\* ---- refinement: GGM.tla (bit sequences and seeds, code-shaped) => GGM_Ind (node identifiers),
+\* whose inductive invariant covers all 2^256 punctured sets (Apalache) and which in turn refines
+\* GGM_Abs (leaf sets; invariant proved with TLAPS).  x and the covering level are read off the step.
+Ind == INSTANCE GGM_Ind WITH retained <- NodeIdsOf(prefixes), punctured <- PuncturedSet
+RefinesIndStep ==
+  LET R  == NodeIdsOf(prefixes)
+      P  == PuncturedSet
+      P2 == {Val(punctured'[i]) : i \in 1..Len(punctured')}
+  IN IF P2 = P THEN NodeIdsOf(prefixes') = R            \* refused calls change nothing
+     ELSE /\ Cardinality(P2 \ P) = 1
+          /\ Cardinality(R \ NodeIdsOf(prefixes')) = 1
+          /\ LET x == CHOOSE y \in P2 \ P : TRUE
+                 n == CHOOSE m \in R \ NodeIdsOf(prefixes') : TRUE
+             IN Ind!PunctureAt(x, n[1])
+RefinesInd == [][RefinesIndStep]_vars
+IndInvHolds == Ind!IndInv
+
 Emit == PrintT(<<"GGMSTATE", ToJson(StateLine)>>)
 EmitInv == Emit   \* PrintT returns TRUE
 =============================================================================
